@@ -129,6 +129,9 @@ pub fn partial_clause(prop: &str, clause: &str, wi: usize, view: &View, visits: 
 }
 
 pub fn walker_probes(w: &Walker, out: &mut Outcome) {
+    if let Spelling::Above { levels, .. } = w.spelling {
+        out.probe(if levels == 255 { "base:root-of-the-file-system" } else { "base:above-the-world" });
+    }
     if let Ok(beh) = crate::exec::behavior(w, DUMMY_ROOT) {
         out.probe(format!("behaviour-passed-as:{}", crate::exec::beh_arg(w.form, beh).1));
     }
@@ -158,10 +161,7 @@ pub fn walker_probes(w: &Walker, out: &mut Outcome) {
 
 /// `$R`-normalised text back to the real path text.
 pub fn denorm(text: &str, root_text: &str) -> String {
-    match text.strip_prefix(R) {
-        Some(rest) => format!("{}{}", root_text, rest),
-        None => text.to_string(),
-    }
+    crate::exec::denorm_text(text, root_text)
 }
 
 /// Root-relative path text of world path `wp` for walker `w` (the path relative to the root
@@ -282,3 +282,33 @@ pub fn cycle_above_prefix(model: &Model, w: &Walker) -> bool {
         .any(|v| matches!(&v.fault, Some(Fault::Cycle { ancestor }) if !is_under(ancestor, &start) ) && is_under(&v.path, &start))
 }
 
+
+/// Sometimes moves the base of a glob walker *above* the world ("all base directories inside or
+/// above the tree"), up to the root of the file system: the glob gets the components in between as
+/// a literal prefix (`$UP<k>`), so the walk itself still starts at the world root.
+pub fn maybe_above(g: &mut crate::gen::Gen, w: &mut Walker, one_in: usize) {
+    if !w.base.is_empty() || !g.rng.chance(1, one_in) {
+        return;
+    }
+    let Source::Glob { expr, rooted: false } = &w.source
+    else {
+        return;
+    };
+    if dot_kind(expr.split('/').next().unwrap_or("")).is_some() || expr.starts_with('$') {
+        return;
+    }
+    let levels: u8 = match g.rng.below(10) {
+        0..=2 => 1,
+        3..=4 => 2,
+        _ => 255,
+    };
+    let expr = if expr.is_empty() { format!("$UP{}", levels) } else { format!("$UP{}/{}", levels, expr) };
+    // (with a prefix before it an expression may stop building, or make `Glob::new` panic — the
+    // totality matter of C05, not sampled: such a draw stays where it was)
+    let text = crate::exec::glob_text(&expr, false, DUMMY_ROOT);
+    if !matches!(crate::exec::guarded(|| wax::Glob::new(&text).is_ok()), Ok(true)) {
+        return;
+    }
+    w.source = Source::Glob { expr, rooted: false };
+    w.spelling = Spelling::Above { levels, slash: g.rng.chance(1, 3) };
+}
